@@ -1,0 +1,7 @@
+//go:build verif
+
+package hashmap
+
+// VerifPopCount exposes the unexported popCount to the verification harness
+// in /verif (property C07). Add-only; compiled only with -tags verif.
+func VerifPopCount(u uint32) uint32 { return popCount(u) }
